@@ -213,6 +213,7 @@ func c03(r *lp.Run) {
 	r.SetRule("validate.Int/Array/String/Object/UniqueItems on boundary grids against the Lean models; then regenerated servers: a fixed keyword matrix plus random schemas (depth ≤ 3) of the fragment type/properties/required/additionalProperties/items/enum/nullable/bounds/multipleOf/length/pattern/item and property counts/uniqueItems/$ref with recursion; per schema: schema-directed valid instances, single-keyword boundary mutants (off-by-one, missing member, extra member, wrong type, null, duplicate item) and random JSON, posted as request bodies; verdict of an independent reference validator vs (status, handler-invoked). non-trivial = distinct (schema, instance) that is an object or array, or sits on a keyword boundary")
 	rng := r.Rng.Fork(3)
 	c03Validators(r, rng)
+	c03BoundMerge(r, rng.Fork(33))
 
 	scratch := os.Getenv("VERIF_SCRATCH")
 	if scratch == "" {
